@@ -893,3 +893,112 @@ pub fn single_cursor_histories(
     }
     (histories, operations)
 }
+
+/// Fourth engine: "repeat, then switch" histories a^k b (k = 1..=kmax) for every pair of operations
+/// of the alphabet, on one cursor object over a counting source: state that builds up only under
+/// repetition (a counter, an adaptive mode) is out of reach of bounded-depth enumeration and, being
+/// new state, of the fingerprint. Results are compared with the model (unless `prop` is C16) and
+/// every single operation's block loads with 2*(levels+2). Returns (histories, operations).
+pub fn repeat_then_switch(
+    name: &str,
+    spec: &FileSpec,
+    entries: &[vlib::fmt::Entry],
+    bytes: &[u8],
+    kmax: usize,
+    prop: &str,
+    acc: &mut Acc,
+) -> (u64, u64) {
+    let model = Model::new(entries.to_vec());
+    let n = model.len();
+    let mut ops = vec![Op::First, Op::Last, Op::Next, Op::Prev];
+    let mut picks: Vec<usize> = vec![0, 1.min(n.saturating_sub(1)), n / 2, n.saturating_sub(1)];
+    picks.dedup();
+    for i in picks {
+        if i < n {
+            let mut gap = model.entries[i].0.clone();
+            gap.push(0);
+            ops.push(Op::Ge(hex(&gap)));
+            ops.push(Op::Ge(hex(&model.entries[i].0)));
+            ops.push(Op::Le(hex(&model.entries[i].0)));
+            ops.push(Op::Eq(hex(&model.entries[i].0)));
+        }
+    }
+    let block_offsets = crate::files::block_offsets(bytes);
+    let load_bound = 2 * (spec.cfg.index_levels as u64 + 2);
+    let (mut histories, mut operations, mut violations) = (0u64, 0u64, 0usize);
+    'pairs: for a in 0..ops.len() {
+        for b in 0..ops.len() {
+            for k in 1..=kmax {
+                let src = CountSrc::new(bytes);
+                let stats = src.stats.clone();
+                let Ok(Ok(reader)) = guarded(|| Reader::new(src)) else { return (histories, operations) };
+                let Ok(mut c) = reader.into_cursor() else { return (histories, operations) };
+                let mut pos = Pos::Fresh;
+                histories += 1;
+                let seq: Vec<usize> = std::iter::repeat(a).take(k).chain(std::iter::once(b)).collect();
+                for (step, &oi) in seq.iter().enumerate() {
+                    let op = &ops[oi];
+                    stats.reset();
+                    let got = apply(&mut c, op);
+                    let loads = stats.block_loads(&block_offsets);
+                    operations += 1;
+                    let (want, mut npos) = model_step(&model, pos, op);
+                    let unspecified = want.is_none();
+                    if unspecified {
+                        match &got {
+                            Ok(Some(Some((key, v)))) => {
+                                if let Some(i) = model.exact(key) {
+                                    if &model.entries[i].1 == v {
+                                        npos = Pos::At(i);
+                                    }
+                                }
+                            }
+                            Err(_) => break,
+                            _ => {}
+                        }
+                    }
+                    let mut bad: Option<String> = None;
+                    if loads > load_bound {
+                        bad = Some(format!("{} loaded {loads} blocks, bound 2*(levels+2) = {load_bound}", op.brief()));
+                    } else if prop != "C16" {
+                        match &got {
+                            Err(e) if !unspecified => bad = Some(format!("{} -> {e}", op.brief())),
+                            Ok(Some(g)) => {
+                                if let Some(w) = &want {
+                                    let w_obs: Obs = w.map(|i| (model.entries[i].0.clone(), model.entries[i].1.clone()));
+                                    if &w_obs != g {
+                                        bad = Some(format!("{} returned {} but the model says {}", op.brief(), obs_brief(g), obs_brief(&w_obs)));
+                                    }
+                                }
+                            }
+                            _ => {}
+                        }
+                    }
+                    if prop == "C03" && loads > load_bound {
+                        // the load bound is C16's business
+                        bad = None;
+                    }
+                    if let Some(msg) = bad {
+                        violations += 1;
+                        let hist: Vec<Op> = seq[..=step].iter().map(|i| ops[*i].clone()).collect();
+                        let pstr = format!("{} x {}, {}", ops[a].brief(), step.min(k), ops[seq[step]].brief());
+                        acc.violation(Violation {
+                            signature: format!("file={name};repeat;{}", pstr.replace(' ', "")),
+                            summary: format!("{prop}: file {name}: history [{pstr}] on one cursor object: {msg}"),
+                            case: json!({"kind": "cursor_history", "file": spec, "ops": hist, "single_cursor": true}),
+                        });
+                        if violations >= 10 {
+                            break 'pairs;
+                        }
+                        break;
+                    }
+                    if got.is_err() {
+                        break;
+                    }
+                    pos = npos;
+                }
+            }
+        }
+    }
+    (histories, operations)
+}
